@@ -139,6 +139,9 @@ func BuildEnvironment(state *BuildState, target *BuildTarget, tmpDir string) Bui
 // Sadly this can't be done as part of TargetEnv() target env as this requires the other
 // env vars are set so they can be substituted.
 func withUserProvidedEnv(target *BuildTarget, env BuildEnv) BuildEnv {
+	// Expand everything against the environment as it was before any of the target's own variables were added;
+	// otherwise whether one of them sees another depends on map iteration order.
+	expanded := make(map[string]string, len(target.Env))
 	for k, v := range target.Env {
 		if strings.Contains(v, "$") {
 			v = os.Expand(v, func(k string) string {
@@ -148,6 +151,9 @@ func withUserProvidedEnv(target *BuildTarget, env BuildEnv) BuildEnv {
 				return "$" + k
 			})
 		}
+		expanded[k] = v
+	}
+	for k, v := range expanded {
 		env[k] = v
 	}
 	return env
